@@ -364,13 +364,24 @@ pub fn tcp_flags_ref(raw: &[u8], off: usize, which: u32) -> i64 {
     be16(raw, off + 12) & ((1i64 << which) - 1)
 }
 
+/// L symbolic bytes. pin0 >= 0: the first header byte is made concrete (used for IPv4, whose
+/// version/IHL byte determines the header length: with it symbolic the options vector has a
+/// symbolic length and CBMC does not finish; the stamps enumerate the IHL values instead).
+pub fn pinned<const L: usize>(off: usize, pin0: i32) -> [u8; L] {
+    let mut raw: [u8; L] = sym::bytes::<L>();
+    if pin0 >= 0 && off < L {
+        raw[off] = pin0 as u8;
+    }
+    raw
+}
+
 // ------------------------------------------------------------------------------------------------
 // C16: decode. For every buffer of length L: parse succeeds exactly when the header fits, never
 // panics, and every numeric getter equals the standard's bit-field.
 // `check_payload`: also compare the payload offset with the standard's (separate harness family
 // so that a payload-offset finding and a field finding have different roles).
-pub fn dec<X: Layer, const L: usize>(off: usize) {
-    let raw: [u8; L] = sym::bytes::<L>();
+pub fn dec<X: Layer, const L: usize>(off: usize, pin0: i32) {
+    let raw: [u8; L] = pinned::<L>(off, pin0);
     let rc = Rc::new(raw.to_vec());
     let keep = rc.clone();
     match X::parse(rc, off) {
@@ -404,8 +415,8 @@ pub fn dec<X: Layer, const L: usize>(off: usize) {
 }
 
 /// C16: payload offset (what the `payload` property skips) vs the standard's header length.
-pub fn payoff<X: Layer, const L: usize>(off: usize) {
-    let raw: [u8; L] = sym::bytes::<L>();
+pub fn payoff<X: Layer, const L: usize>(off: usize, pin0: i32) {
+    let raw: [u8; L] = pinned::<L>(off, pin0);
     let rc = Rc::new(raw.to_vec());
     let keep = rc.clone();
     if let Ok(x) = X::parse(rc, off) {
@@ -423,8 +434,8 @@ pub fn payoff<X: Layer, const L: usize>(off: usize) {
 // ------------------------------------------------------------------------------------------------
 // C15 lemma SER(X): for every buffer, if the layer parses then serialising it (inner cache empty)
 // gives back raw[off..] exactly; the header part ends at the layer's payload offset.
-pub fn ser<X: Layer, const L: usize>(off: usize) {
-    let raw: [u8; L] = sym::bytes::<L>();
+pub fn ser<X: Layer, const L: usize>(off: usize, pin0: i32) {
+    let raw: [u8; L] = pinned::<L>(off, pin0);
     let rc = Rc::new(raw.to_vec());
     let keep = rc.clone();
     if let Ok(x) = X::parse(rc, off) {
@@ -476,12 +487,7 @@ pub fn set<X: Layer, const L: usize>(
     bool_valued: bool,
     pin0: i32,
 ) {
-    let mut raw: [u8; L] = sym::bytes::<L>();
-    // pin0 >= 0: the first header byte is concrete (IPv4: version/IHL byte, so that the header
-    // length is a constant for the solver); all other bytes stay symbolic
-    if pin0 >= 0 {
-        raw[off] = pin0 as u8;
-    }
+    let raw: [u8; L] = pinned::<L>(off, pin0);
     let rc = Rc::new(raw.to_vec());
     let keep = rc.clone();
     let x = match X::parse(rc, off) {
@@ -571,5 +577,99 @@ pub fn set<X: Layer, const L: usize>(
     std::mem::forget(arg_keep);
     std::mem::forget(keep);
     x.leak();
+    vcover!(true, "end reached");
+}
+
+// ------------------------------------------------------------------------------------------------
+// C15 composition: what a layer serialises to once its `inner` cache has been filled by a property
+// read (pktprop.rs stores `Y::from_bytes(x.rawdata, x.offset)` wrapped in the matching Object
+// variant, or an error object when that parse fails).
+
+pub trait HasInner: Layer {
+    fn set_inner(&self, o: Rc<Object>);
+    fn wrap(self) -> Object;
+}
+macro_rules! has_inner {
+    ($t:ty, $v:ident) => {
+        impl HasInner for $t {
+            fn set_inner(&self, o: Rc<Object>) {
+                // first fill of an empty cache: the replaced value is None (nothing is dropped)
+                let old = self.inner.replace(Some(o));
+                std::mem::forget(old);
+            }
+            fn wrap(self) -> Object {
+                Object::$v(Rc::new(self))
+            }
+        }
+    };
+}
+has_inner!(Ethernet, Eth);
+has_inner!(Vlan, Vlan);
+has_inner!(Ipv4Packet, Ipv4);
+has_inner!(Ipv6Packet, Ipv6);
+
+/// Outer layer X at `off`, inner layer Y parsed where X's payload starts (as pktprop.rs does) and
+/// cached in X. Serialising X must still give raw[off..]. The stamp's length is chosen so that Y
+/// parses; a failing parse ends the path (no Ok/Err merge: after a merge CBMC no longer knows which
+/// variant the cached object is and unwinds Object -> Vec<u8> through every packet kind).
+pub fn compose_ok<X: HasInner, Y: HasInner, const L: usize>(off: usize) {
+    let raw: [u8; L] = sym::bytes::<L>();
+    let rc = Rc::new(raw.to_vec());
+    let keep = rc.clone();
+    let x = match X::parse(rc.clone(), off) {
+        Ok(x) => x,
+        Err(_) => {
+            sym::assume(false);
+            unreachable!()
+        }
+    };
+    let y = match Y::parse(rc.clone(), x.payload_off()) {
+        Ok(y) => y,
+        Err(_) => {
+            sym::assume(false);
+            unreachable!()
+        }
+    };
+    let inner = Rc::new(y.wrap());
+    let inner_keep = inner.clone();
+    x.set_inner(inner);
+    let out = x.ser();
+    assert!(out.len() == L - off, "VERIF: serialised length differs from the captured length (inner layer cached)");
+    let i = sym::usize_();
+    sym::assume(i < L - off && i < out.len());
+    assert!(out[i] == raw[off + i], "VERIF: serialised byte differs from the captured byte (inner layer cached)");
+    std::mem::forget(out);
+    std::mem::forget(inner_keep);
+    x.leak();
+    std::mem::forget(keep);
+    vcover!(true, "end reached");
+}
+
+/// Outer layer X whose inner layer was too short to parse: pktprop.rs caches an error object.
+/// Serialising X must still give raw[off..] (the frame's tail must not be lost).
+pub fn compose_err<X: HasInner, const L: usize>(off: usize) {
+    use crate::object::error::ErrorObj;
+    let raw: [u8; L] = sym::bytes::<L>();
+    let rc = Rc::new(raw.to_vec());
+    let keep = rc.clone();
+    let x = match X::parse(rc, off) {
+        Ok(x) => x,
+        Err(_) => {
+            sym::assume(false);
+            unreachable!()
+        }
+    };
+    let inner = Rc::new(Object::Err(ErrorObj::Packet(PacketError::InvalidLength(L))));
+    let inner_keep = inner.clone();
+    x.set_inner(inner);
+    let out = x.ser();
+    assert!(out.len() == L - off, "VERIF: frame tail lost: serialised length differs once an error object is cached as inner layer");
+    let i = sym::usize_();
+    sym::assume(i < L - off && i < out.len());
+    assert!(out[i] == raw[off + i], "VERIF: serialised byte differs from the captured byte (error object cached)");
+    std::mem::forget(out);
+    std::mem::forget(inner_keep);
+    x.leak();
+    std::mem::forget(keep);
     vcover!(true, "end reached");
 }
